@@ -17,7 +17,25 @@
 // (value / no value / await_canceled_exception / the caller's exception), and that a coroutine
 // awaiting a sleep was resumed exactly once and saw the same outcome.
 //
-// header: {"mode":"manual"|"start","coro":bool,"slots":N,"interval":n,"nc":n}
+// TIME.  Model time is in HALF TICKS: an even value 2n is the n-th tick, an odd value 2n-1 is "1 ns
+// before tick n" (only get_expired probes use odd values).  The scenario header carries an
+// order-preserving embedding into the clock's full (nanosecond) resolution:
+//     real(2n) = e + n*u + off[n] ns,   real(2n-1) = real(2n) - 1 ns      (0 < off[n] < u)
+// with per-tick offsets that are not whole milliseconds, so that durations between ticks are not
+// either.  Real time points are mapped back EXACTLY: a time point that is not real(m) for some m is
+// projected as the string "ns:<value>" and can never equal a model time (no rounding to the tick).
+// API FORMS.  Every way the header lets a client request a sleep maps to the one specification
+// action Schedule/CoSleep(tp,..): sleep_until(tp), schedule(id, promise, tp), sleep_for(d) with d in
+// nanoseconds / microseconds (64 and 32 bit rep) / half milliseconds (ratio<1,2000>) / milliseconds
+// / seconds / minutes (and duration<double> seconds when the library accepts it: C12_FLOAT_SLEEP,
+// probed by the driver).  For sleep_for the virtual clock is set so that now + d == real(tp)
+// EXACTLY (manual mode: the clock is free, now := real(tp) - q*unit for a q that is not a whole
+// number of milliseconds where the unit allows; start mode: the clock is what it is, a form is used
+// only if real(tp) - now is a whole number of its unit).  The form rotates per call:
+// forms[(phase + number of the sleep) % len].  interval(d) gets d = real(Interval) - real(0).
+//
+// header: {"mode":"manual"|"start","coro":bool,"slots":N,"interval":n,"nc":n,
+//          "tm":{"e":ns,"u":ns,"off":[ns..]},"forms":[..],"phase":k}
 // projection (built by tools/checks/c12.py proj()):
 //   {"destroyed":b,"fut":[{"co","st","tp"}..],"gen":{"st","stp"},"heap":[{"id","k","tp"}..]}
 //   start mode adds {"cst":[{"st","wat","wst"}..],"now":n,"phase":s,"rq":[..]}
@@ -63,16 +81,17 @@ using namespace rp;
 namespace vt {
 struct Hooks {
     virtual void on_clock() = 0;                 // somebody reads system_clock::now()
-    virtual void on_wait(long long sec) = 0;     // somebody is about to wait_until(sec)
+    virtual void on_wait(long long ns) = 0;      // somebody is about to wait_until(ns since epoch)
     virtual ~Hooks() = default;
 };
-static long long now = 0;          // virtual seconds since epoch
+static long long now = 0;          // virtual clock: nanoseconds since epoch
+static bool client_call = false;   // the clock is read by a client call (sleep_for, interval): not a worker event
 static Hooks *hooks = nullptr;
 static bool post_wait = false;     // the clock read that condition_variable::wait_until makes after waiting
 static long broadcasts = 0;
 static bool guard_locks = false;
 static const char *where = "";     // scenario id / step for fatal reports
-static const long long FOREVER = 4000000000LL;
+static const long long FOREVER = 4000000000LL;   // seconds: time_point::max() and friends
 
 [[noreturn]] static void fatal(const char *what) {
     printf("FATAL %s: %s\n", where, what);
@@ -90,8 +109,9 @@ static Fn real(const char *name, const char *ver) {
 extern "C" {
 int clock_gettime(clockid_t clk, struct timespec *ts) {
     if (clk == CLOCK_REALTIME) {
-        ts->tv_sec = (time_t) vt::now;
-        ts->tv_nsec = 0;
+        ts->tv_sec = (time_t) (vt::now / 1000000000LL);
+        ts->tv_nsec = (long) (vt::now % 1000000000LL);
+        if (vt::client_call) return 0;
         if (vt::post_wait) vt::post_wait = false;
         else if (vt::hooks) vt::hooks->on_clock();
         return 0;
@@ -99,10 +119,11 @@ int clock_gettime(clockid_t clk, struct timespec *ts) {
     return (int) syscall(SYS_clock_gettime, clk, ts);
 }
 static int virtual_timedwait(const struct timespec *abst) {
-    long long sec = abst->tv_sec + (abst->tv_nsec > 0 ? 1 : 0);
+    long long ns = abst->tv_sec >= vt::FOREVER ? vt::FOREVER * 1000000000LL
+                                               : (long long) abst->tv_sec * 1000000000LL + abst->tv_nsec;
     if (!vt::hooks) vt::fatal("condition variable wait outside start(): the thread would block");
-    vt::hooks->on_wait(sec);
-    if (sec > vt::now) vt::now = sec;
+    vt::hooks->on_wait(ns);
+    if (ns > vt::now) vt::now = ns;
     vt::post_wait = true;
     return ETIMEDOUT;
 }
@@ -171,13 +192,75 @@ static std::string future_kind(cocls::future<void> &f) {
     return k;
 }
 
-static const long long INF = 1000;
-static long long secs(std::chrono::system_clock::time_point tp) {
-    if (tp == std::chrono::system_clock::time_point::max()) return INF;
-    return std::chrono::duration_cast<std::chrono::seconds>(tp.time_since_epoch()).count();
+static const long long INF = 1000;   // time_point::max() in model time
+
+// the embedding of model time (half ticks) into nanoseconds, see the head comment
+struct TimeMap {
+    long long e = 0, u = 1000000;
+    std::vector<long long> off;
+    void load(const JV &h) {
+        e = h.at("e").as_int(0);
+        u = h.at("u").as_int(1000000);
+        off.clear();
+        for (auto &x : h.at("off").l) off.push_back(x.as_int(0));
+        if (off.empty()) off.push_back(1);
+    }
+    long long real(long long m) const {            // model -> ns since epoch
+        if (m % 2 != 0) return real(m + 1) - 1;
+        std::size_t n = (std::size_t) (m / 2);
+        return e + (long long) n * u + off[n < off.size() ? n : off.size() - 1];
+    }
+    J model(long long r) const {                   // ns since epoch -> model, exact or "ns:<r-e>"
+        long long x = r - e;
+        if (x >= 0) {
+            for (long long n = x / u - 1; n <= x / u + 1; n++) {
+                if (n < 0 || (std::size_t) n >= off.size()) continue;
+                long long t = n * u + off[(std::size_t) n];
+                if (x == t) return J(2 * n);
+                if (x == t - 1) return J(2 * n - 1);
+            }
+        }
+        return J("ns:" + std::to_string(x));
+    }
+    J model(std::chrono::system_clock::time_point tp) const {
+        if (tp == std::chrono::system_clock::time_point::max()) return J(INF);
+        return model((long long) std::chrono::duration_cast<std::chrono::nanoseconds>(tp.time_since_epoch()).count());
+    }
+    std::chrono::system_clock::time_point point(long long m) const {
+        return std::chrono::system_clock::time_point(std::chrono::nanoseconds(real(m)));
+    }
+};
+
+// the API forms of "sleep until tp"
+struct Form {
+    const char *name;
+    long long unit;        // ns; 0: no duration involved
+    bool manual_only;      // needs a free clock (the duration is chosen, the clock follows)
+};
+static const Form FORMS[] = {
+    {"until", 0, false}, {"sched", 0, false},
+    {"ns", 1, false}, {"us", 1000, false}, {"us32", 1000, false},
+    {"hms", 500000, true}, {"ms", 1000000, true}, {"s", 1000000000LL, true}, {"min", 60000000000LL, true},
+    {"fsec", 1953125, true},   // duration<double> seconds, q/512 s  (only with C12_FLOAT_SLEEP)
+};
+static const Form *form_by_name(const std::string &n) {
+    for (auto &f : FORMS) if (n == f.name) return &f;
+    return nullptr;
 }
-static std::chrono::system_clock::time_point tpoint(long long s) {
-    return std::chrono::system_clock::time_point(std::chrono::seconds(s));
+// the number of units to sleep for in manual mode (the clock is set to real(tp) - q*unit): not a whole
+// number of milliseconds wherever the unit allows, sometimes negative (a time point in the past)
+static long long pick_q(const Form &f, long c) {
+    bool neg = c % 5 == 4;
+    switch (f.unit) {
+        case 1: return neg ? -700123 : 1900737 + 1009 * (c % 7);
+        case 1000: return neg ? -700 : 1900 + 111 * (c % 9);
+        case 500000: return 3 + 2 * (c % 4);
+        case 1000000: return 2 + c % 5;
+        case 1000000000LL: return 1 + c % 2;
+        case 60000000000LL: return 1;
+        case 1953125: return 1 + 2 * (c % 4);
+        default: return 0;
+    }
 }
 
 static char g_tags[16];
@@ -209,6 +292,11 @@ struct World {
     std::map<const void *, int> by_addr;   // future address -> index in sleeps
     bool start_mode = false;
     bool coro = false;
+    TimeMap tm;
+    std::vector<const Form *> forms;
+    long phase = 0;
+    static inline long nsleeps = 0;     // sleeps created in this scenario (all lifetimes): rotates the API form
+    static inline std::map<std::string, long> form_uses;
     // interval()
     int interval = 0;
     std::stop_source stops;
@@ -221,6 +309,17 @@ struct World {
         slot.assign((std::size_t) sc.hdr.at("slots").as_int(4) + 1, -1);
         coro = sc.hdr.at("coro").as_bool();
         interval = (int) sc.hdr.at("interval").as_int(0);
+        tm.load(sc.hdr.at("tm"));
+        for (auto &x : sc.hdr.at("forms").l) {
+            const Form *f = form_by_name(x.as_str());
+#ifndef C12_FLOAT_SLEEP
+            if (f && f->unit == 1953125) f = nullptr;
+#endif
+            if (f) forms.push_back(f);
+        }
+        if (forms.empty()) forms.push_back(&FORMS[0]);
+        phase = (long) sc.hdr.at("phase").as_int(0);
+        vt::now = tm.real(0);
     }
 
     int free_slot() const {
@@ -252,7 +351,48 @@ struct World {
         return !sl.gen_done && gen_sleep >= 0 && &sleeps[gen_sleep] == &sl && gen_state() == "sleep";
     }
 
-    // ---- creation of a sleep (sleep_until) : returns index, reports whether notify_all was called
+    // ---- "sleep until model time tp" through one of the API forms (see the head comment)
+    template <typename D>
+    void sleep_for_form(Sleep &sl, long long q, int id) {
+        sl.f.reset(new cocls::future<void>(s->sleep_for(D((typename D::rep) q), idptr(id))));
+    }
+    void request_sleep(Sleep &sl, int tp, int id) {
+        long c = phase + nsleeps++;
+        long long target = tm.real(tp);
+        const Form *f = nullptr;
+        long long q = 0;
+        for (std::size_t i = 0; i < forms.size() && !f; i++) {
+            const Form *g = forms[(std::size_t) (c + (long) i) % forms.size()];
+            if (g->unit == 0) f = g;
+            else if (!start_mode) { f = g; q = pick_q(*g, c); }
+            else if (!g->manual_only && (target - vt::now) % g->unit == 0) { f = g; q = (target - vt::now) / g->unit; }
+        }
+        if (!f) f = &FORMS[0];
+        form_uses[f->name]++;
+        long long saved = vt::now;
+        if (f->unit != 0 && !start_mode) vt::now = target - q * f->unit;   // the clock at the call: now + d == real(tp)
+        vt::client_call = true;
+        std::string n = f->name;
+        if (n == "until") sl.f.reset(new cocls::future<void>(s->sleep_until(tm.point(tp), idptr(id))));
+        else if (n == "sched") {
+            sl.f.reset(new cocls::future<void>());
+            s->schedule(idptr(id), sl.f->get_promise(), tm.point(tp));
+        }
+        else if (n == "ns") sleep_for_form<std::chrono::nanoseconds>(sl, q, id);
+        else if (n == "us") sleep_for_form<std::chrono::microseconds>(sl, q, id);
+        else if (n == "us32") sleep_for_form<std::chrono::duration<int, std::micro>>(sl, q, id);
+        else if (n == "hms") sleep_for_form<std::chrono::duration<long, std::ratio<1, 2000>>>(sl, q, id);
+        else if (n == "ms") sleep_for_form<std::chrono::milliseconds>(sl, q, id);
+        else if (n == "s") sleep_for_form<std::chrono::seconds>(sl, q, id);
+        else if (n == "min") sleep_for_form<std::chrono::minutes>(sl, q, id);
+#ifdef C12_FLOAT_SLEEP
+        else if (n == "fsec") sl.f.reset(new cocls::future<void>(s->sleep_for(std::chrono::duration<double>((double) q / 512.0), idptr(id))));
+#endif
+        vt::client_call = false;
+        vt::now = saved;
+    }
+
+    // ---- creation of a sleep: returns index, reports whether notify_all was called
     int new_sleep(int tp, int id, int co, bool &notified) {
         int k = free_slot();
         sleeps.emplace_back();
@@ -261,7 +401,7 @@ struct World {
         sl.slot = k; sl.tp = tp; sl.co = co;
         if (k > 0) slot[k] = idx;
         long b0 = vt::broadcasts;
-        sl.f.reset(new cocls::future<void>(s->sleep_until(tpoint(tp), idptr(id))));
+        request_sleep(sl, tp, id);
         notified = vt::broadcasts != b0;
         by_addr[sl.f.get()] = idx;
         return idx;
@@ -324,7 +464,7 @@ struct World {
         if (s) {
             s->each([&](std::chrono::system_clock::time_point tp, const void *ident, const void *pid) {
                 J e = J::map();
-                e.set("tp", secs(tp));
+                e.set("tp", tm.model(tp));
                 e.set("id", id_of(ident));
                 e.set("k", slot_of_promise(pid));
                 heap.push(e);
@@ -383,7 +523,12 @@ struct ManualWorld : World {
 
     // one lifetime of a scheduler: executes steps from `k` up to (not including) the next Construct
     std::size_t run(std::size_t k) {
-        if (interval) gen.emplace(s->interval(std::chrono::seconds(interval), stops.get_token()));
+        if (interval) {
+            // interval(d): d = real(Interval) - real(0), not a whole number of milliseconds; the unit alternates
+            long long d = tm.real(interval) - tm.real(0);
+            if (phase % 2 == 0 && d % 1000 == 0) gen.emplace(s->interval(std::chrono::microseconds(d / 1000), stops.get_token()));
+            else gen.emplace(s->interval(std::chrono::nanoseconds(d), stops.get_token()));
+        }
         for (; k < sc.steps.size(); k++) {
             const Step &st = sc.steps[k];
             if (st.name == "Construct") break;
@@ -395,7 +540,7 @@ struct ManualWorld : World {
                 if (coro) { sleeps[idx].awaited = true; awaiting(*this, idx).detach(); }
                 if ((int) ntf != st.iarg(2)) out_bad = std::string("schedule() ") + (ntf ? "notified" : "did not notify") + " the condition variable";
             } else if (st.name == "GetExpired") {
-                auto e = s->get_expired(tpoint(st.iarg(0)));
+                auto e = s->get_expired(tm.point(st.iarg(0)));
                 if (std::holds_alternative<cocls::scheduler::promise>(e)) {
                     auto &p = std::get<cocls::scheduler::promise>(e);
                     int kslot = slot_of_promise(p.get_id());
@@ -403,8 +548,8 @@ struct ManualWorld : World {
                     if (kslot > 0) expect[kslot] = "done";
                     p();   // the client resolves it
                 } else {
-                    long long v = secs(std::get<std::chrono::system_clock::time_point>(e));
-                    if (st.sarg(1) != "time" || v != st.iarg(2)) out_bad = "get_expired returned time point " + std::to_string(v);
+                    J v = tm.model(std::get<std::chrono::system_clock::time_point>(e));
+                    if (st.sarg(1) != "time" || v.dump() != std::to_string(st.iarg(2))) out_bad = "get_expired returned time point " + v.dump();
                 }
             } else if (st.name == "Remove") {
                 {
@@ -425,13 +570,15 @@ struct ManualWorld : World {
                 std::size_t n0 = 0, n1 = 0;
                 s->each([&](auto, auto, auto) { n0++; });
                 gf.reset();
+                vt::client_call = true;    // the generator reads the clock (next = now()+dur)
                 gf.reset(new cocls::future<std::size_t>((*gen)()));
+                vt::client_call = false;
                 gen_started = true;
                 s->each([&](auto, auto, auto) { n1++; });
                 if (n1 == n0 + 1) {   // the generator went to sleep: a sleep whose future is inside its frame
                     sleeps.emplace_back();
                     Sleep &sl = sleeps.back();
-                    sl.slot = kslot; sl.tp = (int) vt::now + interval; sl.co = -1;
+                    sl.slot = kslot; sl.tp = interval; sl.co = -1;   // model now is 0 in manual mode
                     gen_sleep = (int) sleeps.size() - 1;
                     if (kslot > 0) slot[kslot] = gen_sleep;
                 }
@@ -489,7 +636,7 @@ struct StartWorld : World, vt::Hooks {
 
     StartWorld(const Scenario &sc_, Reporter &rep_, std::size_t pos_) : World(sc_, rep_), pos(pos_) {
         start_mode = true;
-        vt::now = 0;                // a new run starts at virtual time 0
+        vt::now = tm.real(0);       // a new run starts at model time 0
         vt::post_wait = false;
         first = pos_;
         nc = (int) sc.hdr.at("nc").as_int(1);
@@ -498,7 +645,7 @@ struct StartWorld : World, vt::Hooks {
 
     J project() {
         J m = project_common();
-        m.set("now", vt::now);
+        m.set("now", tm.model(vt::now));
         m.set("phase", phase);
         J q = J::list();
         if (cocls::coro_queue::instance) {
@@ -521,7 +668,7 @@ struct StartWorld : World, vt::Hooks {
                 wst = future_kind(*sleeps[co.cur].f);
                 wat = vt::now;
             }
-            e.set("st", st); e.set("wst", wst); e.set("wat", wat);
+            e.set("st", st); e.set("wst", wst); e.set("wat", wst == "none" ? J(0) : tm.model(wat));
             cl.push(e);
         }
         m.set("cst", cl);
@@ -557,8 +704,8 @@ struct StartWorld : World, vt::Hooks {
         if (st->name != "WorkerPoll") { wrong(st, "worker polls (reads the clock)"); return; }
         if (st->iarg(0) != 0) expect[st->iarg(0)] = "done";
     }
-    void on_wait(long long sec) override {
-        if (sec >= vt::FOREVER) {
+    void on_wait(long long ns) override {
+        if (ns >= vt::FOREVER * 1000000000LL) {
             if (!aborting) rep.diverge(pos ? pos - 1 : 0, "worker waits on the condition variable without a deadline: start() hangs");
             fflush(stdout);
             vt::fatal("wait_until(time_point::max()) in single-thread start(): hang");
